@@ -40,6 +40,16 @@ def sources_in(e, reads, hand_locals):
     return out
 
 
+def is_source_leaf(s):
+    if not isinstance(s, tuple) or not s:
+        return False
+    if s[0] == 'fld' and s[1][0] == 'as' and field_of(s[1][1]) is not None and s[2].isdigit():
+        return True
+    if s[0] == 'fld' and s[2] == '0' and s[1][0] == 'call' and (s[1][1] or '').endswith('ReadHandle::read'):
+        return True
+    return s[0] == 'init'
+
+
 def run(rep, f, c, rule='R-REQUEUE'):
     n = 0
     for D in DECODERS:
@@ -87,6 +97,18 @@ def run(rep, f, c, rule='R-REQUEUE'):
                     matched = [e for e in p.events if e[0] == 'cond' and isinstance(e[1], tuple) and e[1][0] == 'variant' and field_of(e[1][1]) is not None
                                and isinstance(e[2], str) and e[2] not in ('None', 'Some')]
                     seq = []
+                    # a pending byte kept in an Option field (`lead_byte: Option<u8>`) that the path found occupied comes first
+                    for e in p.events:
+                        if e[0] == 'cond' and isinstance(e[1], tuple) and e[1][0] == 'variant' and field_of(e[1][1]) is not None and e[2] == 'Some':
+                            fty = ''
+                            for name_, a_ in f.adts.items():
+                                if name_ == D:
+                                    for v_ in a_.get('variants', []):
+                                        for fd_ in v_.get('fields', []):
+                                            if fd_['name'] == field_of(e[1][1]):
+                                                fty = fd_['ty']
+                            if fty.replace(' ', '') in ('Option<u8>', 'core::option::Option<u8>') and ('P', field_of(e[1][1]), 0) not in seq:
+                                seq.append(('P', field_of(e[1][1]), 0))
                     if matched:
                         fld0 = field_of(matched[0][1][1])
                         adt = None
@@ -101,15 +123,16 @@ def run(rep, f, c, rule='R-REQUEUE'):
                     in_hand = set()
                     for fld, v, bb in stores:
                         in_hand |= {s for s in sources_in(v, set(reads), hand) if s[0] == 'H'}
-                    if h != 0 and not matched:
+                    if h != 0 and not matched and not seq:
                         # byte(s) in hand at an inner loop head: at most one loop-carried byte local feeds the stores
                         seq += sorted(in_hand)[:1] if in_hand else [('H', None)]
                     kept_reads = reads[:len(reads) - unreads] if unreads else reads
                     seq += [('R', bb) for bb in kept_reads]
-                    if len(seq) < ln + after:
-                        continue        # earlier bytes of the sequence are not visible on this path (consumed in a previous call)
+                    if len(seq) < after:
+                        continue        # the re-queued bytes themselves are not all visible on this path
                     A = seq[len(seq) - after:]
-                    M = seq[len(seq) - after - ln: len(seq) - after]
+                    # bytes of the malformed sequence that were consumed in an earlier call (a pending surrogate) are not on the path
+                    M = seq[max(0, len(seq) - after - ln): len(seq) - after]
                     used = set()
                     bad = None
                     for fld, v, bb in stores:
@@ -121,6 +144,25 @@ def run(rep, f, c, rule='R-REQUEUE'):
                         wrong = [s for s in ss_n if s in M or (s not in A and s in seq)]
                         if wrong and bad is None:
                             bad = (fld, wrong, bb)
+                    # a byte whose value the path has pinned to one constant (`b == 0x1B`) can be kept by a state transition alone
+                    # (ISO-2022-JP: ESC after a lead byte is re-queued as decoder_state = EscapeStart)
+                    pinned = set()
+                    for e in p.events:
+                        if e[0] == 'cond' and isinstance(e[1], tuple) and e[1] and e[1][0] == 'bin' and e[1][1] in ('Eq', 'Ne') and \
+                                isinstance(e[2], bool) and (e[2] == (e[1][1] == 'Eq')) and (e[1][3][0] == 'c' or e[1][2][0] == 'c'):
+                            side = e[1][2] if e[1][3][0] == 'c' else e[1][3]
+                            while side[0] == 'cast':
+                                side = side[2]
+                            if is_source_leaf(side):        # the byte itself, not a masked or combined value
+                                pinned |= sources_in(side, set(reads), hand)
+                        elif e[0] == 'cond' and isinstance(e[1], tuple) and e[1] and e[1][0] != 'variant' and isinstance(e[2], int) and not isinstance(e[2], bool):
+                            side = e[1]
+                            while side[0] == 'cast':
+                                side = side[2]
+                            if is_source_leaf(side):
+                                pinned |= sources_in(side, set(reads), hand)
+                    if stores:
+                        used |= {s if s[0] != 'H' else next((x for x in seq if x[0] == 'H'), s) for s in pinned}
                     missing = [s for s in A if s not in used]
                     key = '%s:Malformed(%d,%d):%s' % (fn, ln, after, 'resume:' + matched[0][2] if matched else 'in-loop')
                     if key in seen and bad is None and not missing:
